@@ -551,7 +551,8 @@ def literal_of(ex, st, v, candidates):
         for p in st.pc:
             s.add(p)
         s.add(v.t != str_code(cand))
-        if s.check() == z3.unsat:
+        from .verify import guarded_check
+        if guarded_check(s, 2000) == z3.unsat:
             return VStr.const(cand)
     return v
 
